@@ -75,7 +75,7 @@ def run(chk):
                        "or a runtime error (DESIGN.md section 5)"]
     chk.floor = 20000
     chk.rule += ("; plus many applications in one execution (batches through an identity function, repetition of fresh and of temporary "
-                 "strings) and applications continued inside one long expression by 1-70 value-preserving operators")
+                 "strings) and applications continued inside one long expression by 1-70 value-preserving operators; every operator with the same object on both sides (a variable, an element, an argument used twice)")
     items = []  # (src, exp, tag)
     for op in ALL_BINOPS:
         for a in VALUES:
@@ -130,6 +130,12 @@ def run(chk):
         for n in (0, 1, 2, 3, 17, -1, -5, I64_MIN, 1000):
             items.append(("%s * %s" % (lit(s), lit(n)), expect("*", s, n), ("*", "string", "int")))
 
+    # the same object on both sides (a variable used twice): the result is that of two equal operands, NaN included
+    for op in ALL_BINOPS:
+        for a in VALUES:
+            items.append(("let x = %s; x %s x" % (lit(a), op), expect(op, a, a), (op, kind(a), "same-object")))
+            items.append(("let a = [%s]; a[0] %s a[0]" % (lit(a), op), expect(op, a, a), (op, kind(a), "same-element")))
+            items.append(("fn f(x) { x %s x } f(%s)" % (op, lit(a)), expect(op, a, a), (op, kind(a), "same-argument")))
     # allocation requests beyond the machine are excluded by C08 and not generated
     items = [it for it in items if not (it[1][0] == "unspec" and ("huge" in it[1][1] or "integer * string" in it[1][1]))]
     cases = [Case("e%d" % i, src, {"final": 1, "steps": 10000}) for i, (src, _, _) in enumerate(items)]
@@ -166,7 +172,7 @@ def run(chk):
     chk.count("unspecified_corners_skipped", n_unspec)
     # ---- many applications in one execution, operands built at run time (a result must not depend on what was computed
     # before it): value-expected items replayed in batches through an identity function, string repetition of fresh strings
-    vitems = [(src, exp) for (src, exp, tag) in items if exp[0] == "value" and len(src) < 200]
+    vitems = [(src, exp) for (src, exp, tag) in items if exp[0] == "value" and len(src) < 200 and not src.startswith(("let ", "fn "))]
     seqs = []
     for t in range(60 if quick else 1500):
         batch = [rng.choice(vitems) for _ in range(rng.randint(20, 60))]
@@ -214,7 +220,7 @@ def run(chk):
         if res == "s" and ka == "string" and op in ("+", "*"):
             return ' + ""'
         return None
-    chainable = [(src, exp, tail_for(tag, exp)) for (src, exp, tag) in items if exp[0] == "value" and len(src) < 120 and not tag[0].startswith("u")]
+    chainable = [(src, exp, tail_for(tag, exp)) for (src, exp, tag) in items if exp[0] == "value" and len(src) < 120 and not tag[0].startswith("u") and not src.startswith(("let ", "fn "))]
     chainable = [x for x in chainable if x[2]]
     by_tail = {}
     for x in chainable:
